@@ -40,7 +40,7 @@ func (c09) Rule() string {
 }
 func (c09) Batches(string) int { return 16 }
 func (c09) Required(string) []string {
-	return []string{"placements", "placements_point_reached", "honoured", "followup_ok", "wl.loop", "wl.cb-pooled", "wl.cb-unpooled", "wl.child-infinite", "wl.nested-child", "wl.sleep", "wl.eval-loop",
+	return []string{"placements", "placements_point_reached", "honoured", "followup_ok", "prior_aborted_runs", "wl.loop", "wl.cb-pooled", "wl.cb-unpooled", "wl.child-infinite", "wl.nested-child", "wl.sleep", "wl.eval-loop",
 		"action.abort", "action.abort2", "action.cancel", "order.parked", "order.racing", "stress_runs"}
 }
 func (c09) Assumptions() []string {
@@ -53,6 +53,7 @@ type c09wl struct {
 	eval   bool
 	bound  int64
 	points []string
+	prior  bool // the same VM / Eval session already had one run that ended aborted (cancelled)
 }
 
 var c09rootPoints = []string{"run.enter", "run.locked", "run.ready"}
@@ -61,13 +62,13 @@ var c09invokePoints = []string{"invoke.pre_check", "invoke.pre_child_run", "pool
 
 func c09workloads() []c09wl {
 	return []c09wl{
-		{"loop", "global TICK\nfor {\n  TICK()\n}", false, 50000, c09rootPoints},
-		{"cb-pooled", "global (TICK, CALLP)\nf := func(x) {\n  return x + 1\n}\nfor {\n  TICK()\n  CALLP(f, 1)\n}", false, 50000, append(append([]string{}, c09rootPoints...), c09invokePoints...)},
-		{"cb-unpooled", "global (TICK, CALLU)\nf := func(x) {\n  return x + 1\n}\nfor {\n  TICK()\n  CALLU(f, 1)\n}", false, 3000, append(append([]string{}, c09rootPoints...), "invoke.pre_check", "invoke.pre_child_run", "pool.acquire.pre_lock", "pool.acquire.registered", "child.run.enter", "child.run.locked", "child.run.ready", "child.run.exit")},
-		{"child-infinite", "global (TICK, CALLP)\nCALLP(func() {\n  for {\n    TICK()\n  }\n})\nreturn 1", false, 50000, []string{"run.ready", "invoke.pre_check", "invoke.pre_child_run", "pool.acquire.pre_lock", "pool.acquire.registered", "child.run.enter", "child.run.locked", "child.run.ready"}},
-		{"nested-child", "global (TICK, CALLP)\nCALLP(func() {\n  return CALLP(func() {\n    for {\n      TICK()\n    }\n  })\n})\nreturn 1", false, 50000, []string{"invoke.pre_check", "invoke.pre_child_run", "pool.acquire.registered", "child.run.enter", "child.run.ready"}},
-		{"sleep", "global TICK\ntime := import(\"time\")\nfor {\n  TICK()\n  time.Sleep(50 * time.Millisecond)\n}", false, 40, c09rootPoints},
-		{"eval-loop", "global TICK\nfor {\n  TICK()\n}", true, 50000, []string{"eval.pre_select", "eval.goroutine_start", "eval.started", "run.enter", "run.locked", "run.ready"}},
+		{"loop", "global TICK\nfor {\n  TICK()\n}", false, 50000, c09rootPoints, false},
+		{"cb-pooled", "global (TICK, CALLP)\nf := func(x) {\n  return x + 1\n}\nfor {\n  TICK()\n  CALLP(f, 1)\n}", false, 50000, append(append([]string{}, c09rootPoints...), c09invokePoints...), false},
+		{"cb-unpooled", "global (TICK, CALLU)\nf := func(x) {\n  return x + 1\n}\nfor {\n  TICK()\n  CALLU(f, 1)\n}", false, 3000, append(append([]string{}, c09rootPoints...), "invoke.pre_check", "invoke.pre_child_run", "pool.acquire.pre_lock", "pool.acquire.registered", "child.run.enter", "child.run.locked", "child.run.ready", "child.run.exit"), false},
+		{"child-infinite", "global (TICK, CALLP)\nCALLP(func() {\n  for {\n    TICK()\n  }\n})\nreturn 1", false, 50000, []string{"run.ready", "invoke.pre_check", "invoke.pre_child_run", "pool.acquire.pre_lock", "pool.acquire.registered", "child.run.enter", "child.run.locked", "child.run.ready"}, false},
+		{"nested-child", "global (TICK, CALLP)\nCALLP(func() {\n  return CALLP(func() {\n    for {\n      TICK()\n    }\n  })\n})\nreturn 1", false, 50000, []string{"invoke.pre_check", "invoke.pre_child_run", "pool.acquire.registered", "child.run.enter", "child.run.ready"}, false},
+		{"sleep", "global TICK\ntime := import(\"time\")\nfor {\n  TICK()\n  time.Sleep(50 * time.Millisecond)\n}", false, 40, c09rootPoints, false},
+		{"eval-loop", "global TICK\nfor {\n  TICK()\n}", true, 50000, []string{"eval.pre_select", "eval.goroutine_start", "eval.started", "run.enter", "run.locked", "run.ready"}, false},
 	}
 }
 
@@ -122,6 +123,7 @@ func (h *c09ctl) hook(point string, vm *ugo.VM) {
 
 type c09wit struct {
 	Workload string   `json:"workload"`
+	Prior    bool     `json:"prior_aborted_run,omitempty"`
 	Point    string   `json:"point"`
 	Nth      int      `json:"occurrence"`
 	Action   string   `json:"action"`
@@ -217,6 +219,54 @@ func (m c09) placement(c *core.Ctx, wl c09wl, point string, nth int, action stri
 			}
 		}
 	}
+	if wl.prior {
+		// first run on the same VM / session, ended by Abort (cancel) while it is demonstrably inside the loop
+		pctx, pcancel := context.WithCancel(context.Background())
+		pdone := make(chan struct{})
+		var perr error
+		go func() {
+			defer close(pdone)
+			if wl.eval {
+				_, _, perr = ev.Run(pctx, []byte(wl.src))
+			} else {
+				_, perr = vm.Run(globals)
+			}
+		}()
+		stopped := false
+		for i := 0; i < 200000 && !stopped; i++ {
+			if counter.Load() >= 3 {
+				if wl.eval {
+					pcancel()
+				} else {
+					vm.Abort()
+				}
+			}
+			select {
+			case <-pdone:
+				stopped = true
+			case <-time.After(100 * time.Microsecond):
+			}
+		}
+		pcancel()
+		if !stopped {
+			for i := 0; i < 20000 && !stopped; i++ {
+				vm.Abort()
+				select {
+				case <-pdone:
+					stopped = true
+				case <-time.After(500 * time.Microsecond):
+				}
+			}
+			c.Inconclusive("prior run could not be stopped by one Abort: " + wl.name)
+			return
+		}
+		if perr == nil {
+			c.Inconclusive("prior run did not end with an error: " + wl.name)
+			return
+		}
+		c.Count("prior_aborted_runs")
+		counter.Store(0)
+	}
 	ugo.SetVerifHook(ctl.hook)
 	defer ugo.SetVerifHook(nil)
 
@@ -243,7 +293,7 @@ func (m c09) placement(c *core.Ctx, wl c09wl, point string, nth int, action stri
 		if runErr != nil {
 			es = trunc(runErr.Error(), 200)
 		}
-		return c09wit{Workload: wl.name, Point: point, Nth: nth, Action: action, Order: order, Why: why, Trace: tr, Advance: adv, Err: es}
+		return c09wit{Workload: wl.name, Prior: wl.prior, Point: point, Nth: nth, Action: action, Order: order, Why: why, Trace: tr, Advance: adv, Err: es}
 	}
 	rescue := func() {
 		for i := 0; i < 20000; i++ {
@@ -311,7 +361,11 @@ poll:
 		return
 	}
 	adv = counter.Load() - nA
-	fp := "C09|lost|" + wl.name + "|" + point + "|" + strings.TrimRight(action, "25") // abort, abort2, abort5 share a fingerprint
+	wlname := wl.name
+	if wl.prior {
+		wlname += "+prior"
+	}
+	fp := "C09|lost|" + wlname + "|" + point + "|" + strings.TrimRight(action, "25") // abort, abort2, abort5 share a fingerprint
 	if lost {
 		what := "Abort is lost"
 		if action == "cancel" {
@@ -326,15 +380,15 @@ poll:
 		okErr = true
 	}
 	if !okErr {
-		c.Violation("C09|wrong-result|"+wl.name+"|"+point+"|"+strings.TrimRight(action, "25"), fmt.Sprintf("after %s at %s the run returned (%v, %v) instead of the VM-aborted error", action, point, runVal, runErr), wit("wrong result", adv))
+		c.Violation("C09|wrong-result|"+wlname+"|"+point+"|"+strings.TrimRight(action, "25"), fmt.Sprintf("after %s at %s the run returned (%v, %v) instead of the VM-aborted error", action, point, runVal, runErr), wit("wrong result", adv))
 		return
 	}
 	c.Count("honoured")
-	c.Nontrivial(fmt.Sprintf("%s|%s|%d|%s|%s", wl.name, point, nth, action, order))
+	c.Nontrivial(fmt.Sprintf("%s|%s|%d|%s|%s", wlname, point, nth, action, order))
 	// the VM must run later scripts normally
 	ugo.SetVerifHook(nil)
 	if got := c09followup(vm); got != "i:90" {
-		c.Violation("C09|followup|"+wl.name+"|"+point, "an aborted VM does not run a later script normally: "+got, wit("follow-up "+got, adv))
+		c.Violation("C09|followup|"+wlname+"|"+point, "an aborted VM does not run a later script normally: "+got, wit("follow-up "+got, adv))
 		return
 	}
 	c.Count("followup_ok")
@@ -502,6 +556,7 @@ func (m c09) Run(c *core.Ctx) {
 				if nth == 0 {
 					nth = 1
 				}
+				wl.prior = w.Prior
 				for i := 0; i < 5; i++ {
 					m.placement(c, wl, w.Point, nth, act, w.Order == "racing")
 				}
@@ -547,6 +602,29 @@ func (m c09) Run(c *core.Ctx) {
 							c.Sample(desc)
 						}
 					}
+				}
+			}
+		}
+	}
+	// the same placements on a VM / Eval session whose previous run ended aborted
+	for _, wl := range wls {
+		wl.prior = true
+		act := "abort"
+		if wl.eval {
+			act = "cancel"
+		}
+		for _, pt := range wl.points {
+			for _, race := range []bool{false, true} {
+				idx++
+				if idx%c.NBatch != c.Batch {
+					continue
+				}
+				desc := fmt.Sprintf("%s+prior point=%s nth=1 action=%s racing=%v", wl.name, pt, act, race)
+				if !c.Begin(func() string { return desc }) {
+					continue
+				}
+				for r := 0; r < reps; r++ {
+					m.placement(c, wl, pt, 1, act, race)
 				}
 			}
 		}
